@@ -416,6 +416,20 @@ fn eliminate_guard_returns(stmts: &[syn::Stmt]) -> Option<Vec<syn::Stmt>> {
     }
     Some(stmts.to_vec())
 }
+/// type parameters of an inlined generic helper become the type arguments of the call's turbofish
+struct TySubst<'a> { map: &'a BTreeMap<String, syn::Type> }
+impl<'a> VisitMut for TySubst<'a> {
+    fn visit_type_mut(&mut self, t: &mut syn::Type) {
+        if let syn::Type::Path(tp) = t {
+            if tp.qself.is_none() {
+                if let Some(id) = tp.path.get_ident() {
+                    if let Some(rep) = self.map.get(&id.to_string()) { *t = rep.clone(); return; }
+                }
+            }
+        }
+        visit_mut::visit_type_mut(self, t);
+    }
+}
 fn is_place(e: &syn::Expr) -> bool {
     match e {
         syn::Expr::Path(p) => p.qself.is_none() && p.path.get_ident().is_some(),
@@ -1030,8 +1044,26 @@ impl<'a> VisitMut for Rewriter<'a> {
                             _ => params_ok = false,
                         }
                     }
-                    if !esc.0 && recv_ok && has_ref_recv && params_ok && h.sig.asyncness.is_none() && h.sig.generics.params.is_empty() && params.len() == m.args.len() {
+                    // generic helper: only type parameters, all given by the call's turbofish
+                    let mut tymap: BTreeMap<String, syn::Type> = BTreeMap::new();
+                    let mut generics_ok = true;
+                    let gparams: Vec<&syn::GenericParam> = h.sig.generics.params.iter().collect();
+                    if !gparams.is_empty() {
+                        match &m.turbofish {
+                            Some(tf) if tf.args.len() == gparams.len() => {
+                                for (gp, ga) in gparams.iter().zip(tf.args.iter()) {
+                                    match (gp, ga) {
+                                        (syn::GenericParam::Type(tp), syn::GenericArgument::Type(ty)) => { tymap.insert(tp.ident.to_string(), ty.clone()); }
+                                        _ => generics_ok = false,
+                                    }
+                                }
+                            }
+                            _ => generics_ok = false,
+                        }
+                    }
+                    if !esc.0 && recv_ok && has_ref_recv && params_ok && h.sig.asyncness.is_none() && generics_ok && params.len() == m.args.len() {
                         let mut body = h.block.clone();
+                        if !tymap.is_empty() { TySubst { map: &tymap }.visit_block_mut(&mut body); }
                         let recv = (*m.receiver).clone();
                         SelfSubst { recv: &recv }.visit_block_mut(&mut body);
                         let args: Vec<syn::Expr> = m.args.iter().cloned().collect();
